@@ -192,7 +192,7 @@ class FeArray(np.ndarray):
 
         # two fields of the same shape need no alignment and no rewrapping decision; this is
         # the overwhelming majority of calls, and it is what keeps small arrays cheap
-        if elementwise and not kwargs and len(inputs) == 2:
+        if elementwise and not kwargs and len(inputs) == 2 and ufunc.nout == 1:
             left, right = inputs
             if (
                 type(left) is FeArray
